@@ -65,8 +65,23 @@ def gen_case(rng, nobs=(8, 40), ntargets=(6, 14), models=MODELS, metrics=('eucli
     targets = np.array(tg, dtype=float)
     sparse = bool(allow_sparse and metric == 'euclidean' and model in BOUNDED and rng.random() < 0.4)
     solver = str(rng.choice(['inv', 'numpy', 'scipy']))
+    # value-preserving dtypes of the caller's arrays: integer lattices as (unsigned) integer arrays, integer-valued
+    # observations as integers, anything as float32 after rounding to float32 (the model keeps using the exact values)
+    cdt = vdt = 'float64'
+    if kind == 'lattice' and rng.random() < 0.5:
+        cdt = str(rng.choice(['int64', 'int32', 'uint16', 'uint8' if coords.max() < 256 else 'uint16']))
+    elif rng.random() < 0.15:
+        coords = coords.astype('float32').astype(float)
+        targets = targets.astype('float32').astype(float)
+        cdt = 'float32'
+    if np.all(values == np.round(values)) and rng.random() < 0.6:
+        vdt = str(rng.choice(['int64', 'int16']))
+    elif rng.random() < 0.15:
+        values = values.astype('float32').astype(float)
+        vdt = 'float32'
     return dict(coords=coords.tolist(), values=values.tolist(), vario=vd, min_points=minp, max_points=maxp,
-                targets=targets.tolist(), sparse=sparse, solver=solver, kind=kind, dim=dim)
+                targets=targets.tolist(), sparse=sparse, solver=solver, kind=kind, dim=dim,
+                coord_dtype=cdt, value_dtype=vdt)
 
 
 def build(case, **over):
@@ -74,8 +89,8 @@ def build(case, **over):
     kw = dict(min_points=case['min_points'], max_points=case['max_points'], solver=case['solver'],
               sparse=case['sparse'])
     kw.update(over)
-    coords = np.array(case['coords'], float)
-    values = np.array(case['values'], float)
+    coords = np.array(case['coords'], float).astype(case.get('coord_dtype', 'float64'))
+    values = np.array(case['values'], float).astype(case.get('value_dtype', 'float64'))
     with quiet():
         return OrdinaryKriging(vd, coordinates=coords, values=values, **kw)
 
